@@ -105,6 +105,9 @@ var curatedGrammars = []string{
 	"s = LP a RP | LB a RB; a = X | @e",
 	"s = a | LP a RP; a = X | @e",
 	"s = a B | LP a RP | LB a RB C; a = X | X X | @e",
+	// a chain of reductions on ERROR in front of @error, the second one of a NON-empty production (the recovery
+	// simulation follows reductions without popping: repaired defect D30)
+	"s = b @e C; b = a; a = @empty", "s = x y @e SEMI | x B; x = A; y = z; z = w?; w = A",
 	// @error at start, middle, end, inside sugar
 	"s = @e | A s B", "s = A @e B | A C", "s = item* ; item = A SEMI | @e SEMI", "s = L(item,COMMA)?; item = A | @e", "s = A @e? B",
 	// a production that is @error alone inside a repetition: a recovered item can be followed at once by
